@@ -23,6 +23,13 @@ def run_check(prop: str, tier: str, repo: str, quiet=False) -> int:
     except ImportError as ex:
         print('ANALYSIS-ERROR property=%s no rule module: %s' % (prop, ex))
         return 2
+    except Exception:
+        # a broken rule module must never look like a violation
+        tb = traceback.format_exc()
+        sys.stderr.write(tb)
+        print('ANALYSIS-ERROR property=%s rule module does not load: %s'
+              % (prop, tb.strip().splitlines()[-1]))
+        return 2
     rep = Report(prop, tier, repo)
     eng = None
     try:
